@@ -290,10 +290,41 @@ def run_report(spec):
         else:
             con, t1, t2 = r
             tf = true_flops(t2)
-            if not math.isclose(10 ** con["score"], tf, rel_tol=1e-9):
+            if t2.total_flops() != tf:
+                viol.append(f"tree.total_flops {t2.total_flops()} != definition {tf}")
+            # the stored score is the score of the tree rebuilt from the stored
+            # path - in the units every other writer of the cache
+            # (update_from_tree, overwrite='improved') uses: tree.get_score()
+            if not math.isclose(con["score"], t2.get_score(), rel_tol=1e-9, abs_tol=1e-12):
                 viol.append(
-                    f"stored score 10**{con['score']:.6f} != flops {tf} of the tree rebuilt from the stored path"
+                    f"stored score {con['score']:.6f} != score {t2.get_score():.6f} (flops {tf}) of the tree rebuilt "
+                    "from the stored path"
                 )
+            # ... so a strictly cheaper tree offered through update_from_tree is
+            # taken, and a strictly dearer one is not
+            if not viol and n >= 3:
+                def offer():
+                    other = ctg.array_contract_tree(
+                        inputs, output, sizes, canonicalize=False,
+                        optimize=ctg.pathfinders.path_random.RandomOptimizer(seed=spec["seed"]),
+                    )
+                    opt2 = pb.ReusableRandomGreedyOptimizer(max_repeats=spec["max_repeats"], seed=spec["seed"], parallel=False)
+                    ta = opt2.search(inputs, output, sizes)
+                    opt2.update_from_tree(other, overwrite="improved")
+                    tb = opt2.search(inputs, output, sizes)
+                    return true_flops(ta), true_flops(other), true_flops(tb), ta.get_score(), other.get_score()
+
+                ok, r2 = guarded(offer)
+                if not ok:
+                    viol.append(f"update_from_tree on ReusableRandomGreedyOptimizer raised {r2}")
+                else:
+                    fa, fo, fb, sa, so = r2
+                    want_f = fo if so < sa else fa
+                    if fb != want_f and so != sa:
+                        viol.append(
+                            f"cached tree costs {fa} (score {sa:.4f}), a tree costing {fo} (score {so:.4f}) was offered with "
+                            f"update_from_tree(overwrite='improved'), the cache now serves one costing {fb}"
+                        )
     else:
         def go():
             kw = {}
